@@ -68,6 +68,7 @@ type PureFunc struct {
 	Body     SExpr  // nil for abstract
 	Abstract bool
 	Reads    []string // heap sorts passed to an abstract function
+	Text     string   // declaration text (relevance analysis of axioms)
 	File     string
 	Line     int
 }
@@ -85,7 +86,18 @@ type Axiom struct {
 	Line int
 }
 
+// Lemma is a closed formula over spec functions and axioms that is proved on
+// its own (no program): e.g. "the comparator is a strict weak order".
+type Lemma struct {
+	Name string
+	Expr SExpr
+	Text string
+	File string
+	Line int
+}
+
 type SpecFile struct {
+	Lemmas map[string]*Lemma
 	Funcs  map[string]*FuncSpec
 	Pures  map[string]*PureFunc
 	Axioms []*Axiom
@@ -98,7 +110,7 @@ func NewSpecFile() *SpecFile {
 
 var clauseKeywords = map[string]bool{"requires": true, "ensures": true, "invariant": true, "decreases": true,
 	"assigns": true, "loop": true, "may_panic": true, "trusted": true, "pure": true, "abstract": true, "axiom": true,
-	"func": true, "noinline": true, "opaque": true, "flag": true, "let": true, "may_panic_at": true, "extends": true, "foreach_field": true, "ghost": true, "assert": true}
+	"func": true, "lemma": true, "noinline": true, "opaque": true, "flag": true, "let": true, "may_panic_at": true, "extends": true, "foreach_field": true, "ghost": true, "assert": true}
 
 // ParseSpecFile reads //@ lines from path and adds them to sf.
 func (sf *SpecFile) ParseSpecFile(path string) error {
@@ -181,7 +193,22 @@ func (sf *SpecFile) ParseSpecFile(path string) error {
 				return fmt.Errorf("%s: %v", loc, err)
 			}
 			pf.File, pf.Line = path, r.line
+			pf.Text = r.text
 			sf.Pures[pf.Name] = pf
+			cur, curLoop = nil, nil
+		case "lemma":
+			name, body, ok := strings.Cut(r.text, ":")
+			if !ok || strings.ContainsAny(strings.TrimSpace(name), " (") {
+				return fmt.Errorf("%s: expected 'lemma name: formula'", loc)
+			}
+			e, err := ParseSpecExpr(body)
+			if err != nil {
+				return fmt.Errorf("%s: %v", loc, err)
+			}
+			if sf.Lemmas == nil {
+				sf.Lemmas = map[string]*Lemma{}
+			}
+			sf.Lemmas[strings.TrimSpace(name)] = &Lemma{Name: strings.TrimSpace(name), Expr: e, Text: body, File: path, Line: r.line}
 			cur, curLoop = nil, nil
 		case "axiom":
 			name, body, ok := strings.Cut(r.text, ":")
